@@ -3,10 +3,10 @@ CONSTANTS
   Dialogs = {"d1", "d2"}
   Backs = {"b1", "b2", "b3"}
   BackSeq <- MCBackSeq
-  MethodExcluded = TRUE
+  MethodExcluded = FALSE
   PurgeEvictsLive = FALSE
   ExpiresIgnored = FALSE
-  RejectUnpins = FALSE
+  RejectUnpins = TRUE
   MaxOps = 8
   MaxTimeouts = 1
 VIEW PropView
